@@ -2,6 +2,7 @@ package main
 
 import (
 	"fmt"
+	"os"
 
 	asv1 "github.com/pingcap/advanced-statefulset/client/apis/apps/v1"
 
@@ -43,6 +44,7 @@ func scenarioFamilyOpt(prop string, cfgOf func(i int) world.Cfg, check recCheck,
 				f.r = world.NewRunner(w, ctx.caseSeed(i), world.DefaultCfg())
 				f.r.OnRecord = f.onRecord
 				f.safely(func() { directed[i-ctx.Lo](f) })
+				dumpTrace(f)
 				continue
 			}
 			w.Reset()
@@ -52,6 +54,7 @@ func scenarioFamilyOpt(prop string, cfgOf func(i int) world.Cfg, check recCheck,
 				f.r.Setup()
 				f.r.Hostile()
 			})
+			dumpTrace(f)
 			if w.Restarts > 40 {
 				// budget of leaked broadcaster goroutines per process
 				srv = simapi.New()
@@ -59,6 +62,15 @@ func scenarioFamilyOpt(prop string, cfgOf func(i int) world.Cfg, check recCheck,
 			}
 		}
 		return res
+	}
+}
+
+// dumpTrace prints the scenario trace when VCHECK_TRACE is set (single-case debugging).
+func dumpTrace(f *fam) {
+	if os.Getenv("VCHECK_TRACE") != "" && f.ctx.Only >= 0 {
+		for _, l := range f.r.Trace {
+			fmt.Println(l)
+		}
 	}
 }
 
@@ -283,6 +295,7 @@ func init() {
 			}
 			return false
 		}, nil),
+		Race: runLive("C10"), RaceCases: scenarioCases(16, 160),
 		Floors: []string{"ownership_writes_checked", "adoption_patches_checked", "nonmatching_owned_pod_writes", "fresh_reads_seen"}})
 	register(&Check{Prop: "C06", Level: "exploration",
 		Rule:   "scenario family with 0..2 claim templates, set names with dashes/digits, stale claim caches and faults on claim creates; the ordered write log of the real pod control is checked for identity stamping, claims-before-pod and claim immutability; directed slot-in/slot-out histories check that the same claim objects (UID) come back; non-trivial = reconcile that created a pod",
